@@ -1090,6 +1090,7 @@ package raft
 //@   ensures  timeout_only_if_requested: typeis(result, errorFuture) && cast(result, errorFuture).err == ErrEnqueueTimeout ==> timeout > 0
 //@   ensures  queued_means_sent: typeis(result, *logFuture) ==> sent(r.applyCh) == old(sent(r.applyCh)) + 1 && lastsent(r.applyCh) == cast(result, *logFuture) && isfresh(cast(result, *logFuture)) && cast(result, *logFuture).errCh != nil
 //@   ensures  refused_means_not_sent: !typeis(result, *logFuture) ==> sent(r.applyCh) == old(sent(r.applyCh))
+//@   ensures  carries_the_callers_command: typeis(result, *logFuture) ==> cast(result, *logFuture).log.Data == log.Data && cast(result, *logFuture).log.Extensions == log.Extensions
 //@   ensures  command_entry: typeis(result, *logFuture) ==> cast(result, *logFuture).log.Type == LogCommand && cast(result, *logFuture).log.Index == 0 && cast(result, *logFuture).log.Term == 0
 
 //@ func (r *Raft) Barrier
@@ -1700,3 +1701,27 @@ package raft
 //@   localonly
 //@   at call (*Raft).preElectSelf$1#* assert only_other_voters_are_asked: arg0.Suffrage == Voter && arg0.ID != r.localID
 //@   ensures  proposes_without_changing_state: r.currentTerm == old(r.currentTerm) && r.state == old(r.state)
+
+// ---------------------------------------------------------------------------
+// C08: Apply is ApplyLog with the caller's bytes; C18: Leader()/LeaderWithID() report the advertised leader
+
+//@ func (r *Raft) Apply
+//@   requires nonnil: r != nil && r.applyCh != nil && r.shutdownCh != nil
+//@   localonly
+//@   ensures  queues_the_callers_bytes: typeis(result, *logFuture) ==> cast(result, *logFuture).log.Data == cmd && cast(result, *logFuture).log.Type == LogCommand &&
+//@              sent(r.applyCh) == old(sent(r.applyCh)) + 1 && lastsent(r.applyCh) == cast(result, *logFuture)
+//@   ensures  refused_means_not_queued: !typeis(result, *logFuture) ==> sent(r.applyCh) == old(sent(r.applyCh))
+
+//@ func (r *Raft) Leader
+//@   requires nonnil: r != nil
+//@   ensures  advertised_leader: result == r.leaderAddr
+
+//@ func (r *Raft) LeaderWithID
+//@   requires nonnil: r != nil
+//@   ensures  advertised_leader: result0 == r.leaderAddr && result1 == r.leaderID
+
+// C10: the commit index is staged only in RestoreCommittedLogs mode, on a commit-tracking store, and it is the value given
+//@ func (r *Raft) tryStageCommitIndex
+//@   requires nonnil: r != nil && r.logger != nil
+//@   localonly
+//@   at call CommitTrackingLogStore.StageCommitIndex#1 assert stages_the_given_index_only_when_enabled: arg0 == commitIndex && r.RestoreCommittedLogs
